@@ -63,3 +63,40 @@ func TestVerifReplayGetLoginDestination(t *testing.T) {
 		t.Logf("REPLAY-NOT-REPRODUCED")
 	}
 }
+
+// C13: the host rule ("a configured domain or a subdomain of one") on the real CanRedirectToURL.
+func verifHostOK(h, d string) bool {
+	d = strings.TrimPrefix(d, ".")
+	return d != "" && (h == d || strings.HasSuffix(h, "."+d))
+}
+
+func TestVerifReplayCanRedirectHost(t *testing.T) {
+	in := verifReplayInputs(t)
+	var hosts, domains []string
+	json.Unmarshal([]byte(in["hosts"]), &hosts)
+	json.Unmarshal([]byte(in["domains"]), &domains)
+	confirmed := false
+	for _, hx := range hosts {
+		hb, _ := hex.DecodeString(hx)
+		for _, dx := range domains {
+			db, _ := hex.DecodeString(dx)
+			h, d := string(hb), string(db)
+			client := OpenIDConnectClientConfig{ClientID: "c", AllowedRedirectDomains: []string{d}}
+			raw := "https://" + h + "/cb"
+			ok, u, err := client.CanRedirectToURL(raw)
+			t.Logf("domain=%q url=%q -> ok=%v err=%v", d, raw, ok, err)
+			if ok && u != nil && !verifHostOK(u.Hostname(), d) {
+				t.Logf("REPLAY-CONFIRMED: host %q is neither %q nor a subdomain of it", u.Hostname(), d)
+				confirmed = true
+			}
+			okc, _ := client.CorsOriginAllowed("https://" + h)
+			if okc && !verifHostOK(h, d) {
+				t.Logf("REPLAY-CONFIRMED: CORS origin host %q accepted for domain %q", h, d)
+				confirmed = true
+			}
+		}
+	}
+	if !confirmed {
+		t.Logf("REPLAY-NOT-REPRODUCED")
+	}
+}
